@@ -5,7 +5,7 @@ pending decision prefix (replay-based forking: no state copying, models may call
 MIR recursively).  Obligations (MIR asserts, reached panics, model pre-conditions, harness
 post-conditions) are discharged by the solver under the current path condition.
 """
-import re, time, os, sys
+import os, re, time, sys
 import z3
 from .values import *
 from .rustdefs import simple_name
@@ -1065,7 +1065,12 @@ def explore(h, entry, mk_args, post=None, pre=None, stats=None, max_paths=None, 
         except PathEnd:
             stats.paths += 1
         except (Unsupported, Budget) as e:
-            incon.append('%s: %s' % (type(e).__name__, e))
+            where = ''
+            try: where = '   [at ' + ex.where() + ']'
+            except Exception: pass
+            incon.append('%s: %s%s' % (type(e).__name__, e, where if 'called from' not in str(e) else ''))
+            if os.environ.get('MIRSYM_TRACE'):
+                import traceback; traceback.print_exc()
             stats.paths += 1
         finally:
             violations += ex.violations
